@@ -5,6 +5,7 @@ ENGINES = {
     "attack": {"dir": "internal/zzsim/attack"},
     "stream": {"dir": "internal/zzsim/stream", "common": True},
     "clock": {"dir": "internal/zzsim/clock"},
+    "cmd": {"dir": ".", "prefix": "zz_sim_"},
 }
 
 ATTACK_REAL = ["lib.Attacker.Attack / attack / hit / Stop (instrumented copy of the working tree)", "net/http.Client on top of the fake transport",
@@ -79,7 +80,8 @@ SPECS = {
             "real": ["NewHTTPTargeter, NewJSONTargeter, NewJSONTargetEncoder, peekingScanner"], "stub": ["source reader (SimReader: chunk sizes, split lines, (n>0,EOF), zero-length reads)", "body files (real files in a per-process sandbox)"],
             "not_simulated": ["the target lists themselves are seeded workload generation; under concurrent draws the same targeters are exercised by C15"],
             "assumptions": ["a header block is always followed by a blank line (as in every example of the manual); read errors of the source are outside the statement and not judged here"]},
-    "C16": {"jobs": [{"engine": "stream", "scenario": "fuzz-C16", "race": False, "quick": 60000, "thorough": 6000000}],
+    "C16": {"jobs": [{"engine": "stream", "scenario": "fuzz-C16", "race": False, "quick": 60000, "thorough": 6000000},
+                     {"engine": "cmd", "scenario": "flagfuzz-C16", "race": False, "quick": 20000, "thorough": 2000000}],
             "rule": "one evaluation = a valid document of one of five kinds (gob/CSV/JSON result streams, http/JSON target files) written to a SimFile and subjected to 1..8 storage faults (lost, duplicated, reordered, misdirected/spliced writes; bit flips, truncation, garbage ranges, deleted ranges, 0xff runs) or replaced by random bytes, then fed through a chunking SimReader with zero-length reads to a parser (the matching one, DecoderFor, or a foreign one); judged: no panic, an error or end within len(input)+2 successful calls, Read calls <= 16*len+4096, allocation <= 64 MiB + 256*len, return within 45 s wall; distinct = distinct event-log hashes",
             "real": ["gob/CSV/JSON decoders, DecoderFor, NewHTTPTargeter, NewJSONTargeter"], "stub": ["storage (SimFile faults), reader (SimReader)"],
             "not_simulated": ["the bucket, rate, header, max-body, connect-to and resolver-address parsers take a string: no stream, fault or schedule applies; they are fed mutated values by the cmd engine's flag scenario (plain seeded generation)"],
@@ -102,4 +104,15 @@ SPECS = {
             "stub": ["DNS server (miekg/dns responder on net.Pipe)", "innermost dial function (recording, parking)", "http.Transport itself is bypassed: the installed DialContext is called directly"],
             "not_simulated": ["option subsets that make the real net.Dialer the innermost dial function (LocalAddr, KeepAlive(false), UnixSocket after the client), TLS/HTTP2/proxy options: they need real sockets", "internal/resolver.address rotation (its dial uses a real net.Dialer)"],
             "assumptions": ATTACK_ASSUME + ["Go's resolver and dnscache contain unmediated selects: oracles are over sets and counts of dials, not over their order", "when the DNS answer changes, dials returning after the change may use the old or the new set"]},
+    "C17": {"jobs": [{"engine": "cmd", "scenario": "plot-C17", "race": False, "quick": 4000, "thorough": 400000},
+                     {"engine": "cmd", "scenario": "lttb-grid-C17", "race": False, "quick": 16, "thorough": 3200, "procs": 16}],
+            "rule": "one evaluation = (a) results of 1..3 attacks (1..40 results each, 1 in 30: 500..5000; contiguous sequence numbers, timestamps ordered like them with gaps from 0 to minutes, arbitrary OK/ERROR mix) written in an arrival order chosen by the tape (sequence order, local disorder as produced by concurrent completion, arbitrary permutation) into 1..3 files of tape-chosen encodings, plotted by the real plotRun() with a tape-chosen threshold, the HTML parsed back; or (b) one complete sweep of lttb.Downsample over every (count, threshold) pair with count <= 64 on a tape-drawn series; distinct = distinct event-log hashes",
+            "real": ["plotRun(), decoder(), DecoderFor, NewRoundRobinDecoder, lib/plot (labeledSeries, timeSeries, go-tsz), lib/lttb"], "stub": ["result files (real temporary files written by the harness)"],
+            "not_simulated": ["the (count, threshold) sweep is a workload sweep, not a simulation result; arrival order is drawn from the tape rather than produced by a simulated attack"],
+            "assumptions": ["ties in x are not ordered (the plot's sort is not stable and series are iterated in map order)", "exhaustive: the (count<=64, threshold) grid is enumerated completely in every lttb-grid run; nothing else is"]},
+    "C19": {"jobs": [{"engine": "cmd", "scenario": "flags-C19", "race": False, "quick": 20000, "thorough": 2000000}],
+            "rule": "one evaluation = one textual flag value (or a set of repeated flags) pushed through the real flag.Value registered by attackCmd(): -rate N, N/unit, N/k unit, N/1h30m (then the resulting pacer is followed in closed loop over 1..5 periods of virtual time and the hits are counted; the printed form is parsed back), the words 0 and infinity (must give an unlimited pacer and make attack() demand -max-workers), malformed rates (must be rejected), repeated -header with arbitrary spacing and key case, -max-body in every documented notation, repeated -connect-to tuples, -dns-ttl values, -resolvers lists (also through resolver.NewResolver); distinct = distinct event-log hashes",
+            "real": ["rateFlag, headers, maxBodyFlag, connectToFlag, dnsTTLFlag, csl, attackCmd() registration, attack()'s -max-workers demand, resolver.NewResolver, ConstantPacer"], "stub": ["the attacker following the pacer (closed loop in virtual time)"],
+            "not_simulated": ["parsing clauses are functions of a string (seeded generation); the downstream meaning of -dns-ttl and -connect-to values (DNSCaching/ConnectTo behaviour in fake time) is exercised by C18"],
+            "assumptions": ["only malformed -rate values are required to be rejected (the statement says so for rates only)"]},
 }
